@@ -23,9 +23,9 @@ const (
 )
 
 var (
-	PackagePrefix = []byte{0x5a, 0x48}     // package flag
-	PackageLength = 4                      // package length bytes
-	PackageMaxLen = 1 * 1024 * 1024 * 1024 // 1 Gb
+	PackagePrefix = []byte{0x5a, 0x48} // package flag
+	PackageLength = 4                  // package length bytes
+	PackageMaxLen = 64 * 1024          // 64 KB. Handshake packages are a few hundred bytes; the buffer is allocated before the sender is authenticated
 )
 
 // encHandshake object for handshake
